@@ -80,6 +80,15 @@ func (s *propStats) eval(classes []string, nontrivial bool, h uint64, sampleKey 
 	}
 }
 
+// evalN counts n evaluations of an enumeration at once (they are not hashed
+// one by one; the enumeration's own rule says what they are).
+func (s *propStats) evalN(n int, class string) {
+	s.mu.Lock()
+	defer s.mu.Unlock()
+	s.Evaluations += n
+	s.Classes[class] += n
+}
+
 func (s *propStats) abort(why string) {
 	s.mu.Lock()
 	defer s.mu.Unlock()
